@@ -938,7 +938,7 @@ class _Doc:
 
 
 def _match(e, test):
-    if test == "*":
+    if test is None or test == "*":
         return True
     if isinstance(test, tuple):
         return e.tag.startswith("{%s}" % test[1])
